@@ -16,6 +16,7 @@ Decided (structural):
    inside that closure; `InferredConj::from_conjunctions` keeps every goal of every clause array.
  (round 4, shared) list iterators stop only at the end of the spine (with C21); all conjunction
    builders (builders.check_all).
+ (round 5, shared with C11) a collection handed to `for` through `project` is the walk*-ed list.
 """
 import C14
 import macrolib
@@ -152,6 +153,10 @@ def run(ctx, fb, cfg):
     import C21
 
     C21.check_iterators(ctx, lib, "C12.K6.sibling-iterators")
+    # a collection handed to `for` through `project` is the fully walked list (shared with C11)
+    import C11
+
+    C11.check_what_is_projected(ctx, lib, "C12.K3.what-is-projected")
     if cfg == "lib-default":
         S = macrolib.load_sem(ctx, fb)
         if S is not None:
